@@ -450,18 +450,18 @@ func (r *Report) Finish(verifDir string, seed int64) int {
 	}
 
 	cov := map[string]interface{}{
-		"obligations":  len(keys),
-		"discharged":   discharged,
-		"explanation":  r.Explanation,
-		"checker_cmd":  fmt.Sprintf("./check %s --tier %s", r.Prop, r.Tier),
-		"trusted_base": r.Trusted,
-		"samples":      samples,
-		"rules":        ruleStats,
-		"exhaustive":   r.Exhaustive,
+		"obligations":               len(keys),
+		"discharged":                discharged,
+		"explanation":               r.Explanation,
+		"checker_cmd":               fmt.Sprintf("./check %s --tier %s", r.Prop, r.Tier),
+		"trusted_base":              r.Trusted,
+		"samples":                   samples,
+		"rules":                     ruleStats,
+		"exhaustive":                r.Exhaustive,
 		"known_findings_reproduced": len(knownHit),
-		"analysed_repo": r.prog.Dir,
-		"goarch":        r.prog.Arch,
-		"packages":      len(r.prog.Pkgs),
+		"analysed_repo":             r.prog.Dir,
+		"goarch":                    r.prog.Arch,
+		"packages":                  len(r.prog.Pkgs),
 	}
 	for k, v := range r.Extra {
 		cov[k] = v
